@@ -14,8 +14,9 @@
 (*         ret  "ok" | "idle" | "dead" | "crash" | "hang" | "panic" |      *)
 (*              "fail" (Start returned an error);                          *)
 (*         fired  the injected fault did occur;                            *)
-(*         seq  the database states after every COMMITTED transaction of   *)
-(*              the step; rng the block range the step fetched ([] none);  *)
+(*         seq  the DISTINCT committed database states observed during the *)
+(*              step (before every SQL statement and at its end);          *)
+(*              rng the block range the step fetched ([] none);            *)
 (*         ob[o] = [up, db] after the step, db = [nb, li, ks, co] with the  *)
 (*         rows as lists.                                                  *)
 (* Deterministic fold.  Pass A (viol): the K monitors of ChainObsProps on  *)
@@ -41,6 +42,15 @@ CommitsOf(line) == [i \in DOMAIN line.seq |-> DbOf(line.seq[i])]
 NoDupJ(j) == Cardinality({j.ks[i].idx : i \in DOMAIN j.ks}) = Len(j.ks) /\ Cardinality({j.co[i].act : i \in DOMAIN j.co}) = Len(j.co)
 
 FOf(a) == [k |-> a.f.k, at |-> a.f.at, w |-> a.f.w]
+
+(* the harness records the DISTINCT committed states it sees before every statement and at the end
+   of the step: a commit that leaves the database as it was (an event handled again after a restart
+   whose row and progress exist) is not visible *)
+RECURSIVE DedupFrom(_, _, _)
+DedupFrom(p0, seq, i) ==
+    IF i > Len(seq) THEN <<>>
+    ELSE IF seq[i] = p0 THEN DedupFrom(p0, seq, i + 1)
+    ELSE <<seq[i]>> \o DedupFrom(seq[i], seq, i + 1)
 
 LineViol(line, pv) ==
     LET dbs == Dbs(line)
@@ -85,7 +95,7 @@ SpecStep(line, pv, s) ==
                           r == Poll(line.blk, line.canon, pv[o], s[o].mem, FOf(a))
                           up2 == r.ret \in {"ok", "idle"}
                       IN [ok |-> /\ s[o].up
-                                 /\ r.seq = CommitsOf(line) /\ r.db = dbs[o]
+                                 /\ DedupFrom(pv[o], r.seq, 1) = CommitsOf(line) /\ r.db = dbs[o]
                                  /\ r.ret = line.ret /\ r.rng = line.rng
                                  /\ line.fired = (a.f.k # "none")
                                  /\ ups[o] = up2
